@@ -50,6 +50,13 @@ type PEnum struct {
 	Names  []string `json:"names"`  // AllTipNames
 	Sorted []int    `json:"sorted"` // SortedTips
 	Rooted bool     `json:"rooted"`
+	// Tree.PreOrder / Tree.PostOrder: one [node, previous node (0 at the root), branch (0 at the root)] per call-back
+	Pre  [][]int `json:"pre"`
+	Post [][]int `json:"post"`
+	// number of call-backs made when the call-back answers false at its StopAt-th call (the traversal must stop there)
+	StopAt   int `json:"stopat"`
+	PreStop  int `json:"prestop"`
+	PostStop int `json:"poststop"`
 }
 
 type PTree struct {
@@ -214,6 +221,31 @@ func project(t *tree.Tree, opt ProjOpt) (p *PTree) {
 		for _, n := range t.SortedTips() {
 			en.Sorted = append(en.Sorted, p.nodeId[n])
 		}
+		en.Pre, en.Post = [][]int{}, [][]int{}
+		rec := func(dst *[][]int) func(cur, prev *tree.Node, e *tree.Edge) bool {
+			return func(cur, prev *tree.Node, e *tree.Edge) bool {
+				pi, ei := 0, 0
+				if prev != nil {
+					pi = p.nodeId[prev]
+				}
+				if e != nil {
+					ei = p.edgeId[e]
+				}
+				*dst = append(*dst, []int{p.nodeId[cur], pi, ei})
+				return len(*dst) < 4*len(p.N)+8 // a runaway traversal is cut
+			}
+		}
+		t.PreOrder(rec(&en.Pre))
+		t.PostOrder(rec(&en.Post))
+		en.StopAt = 1 + (len(p.N)+len(p.E))%3
+		stopper := func(cnt *int) func(cur, prev *tree.Node, e *tree.Edge) bool {
+			return func(cur, prev *tree.Node, e *tree.Edge) bool {
+				*cnt++
+				return *cnt < en.StopAt && *cnt < 4*len(p.N)+8
+			}
+		}
+		t.PreOrder(stopper(&en.PreStop))
+		t.PostOrder(stopper(&en.PostStop))
 		nz := func(x []int) []int {
 			if x == nil {
 				return []int{}
